@@ -59,8 +59,15 @@ func odtStyleFor(p *lpara, auto, named map[string]bool) string {
 			s = "CycA" + L
 			named[s] = true
 			named["CycB"+L] = true
+		case "family":
+			s = p.Fam // its ancestors are added by family.closeNeed
+			named[s] = true
 		}
 	case "p":
+		if p.Fam != "" {
+			s = p.Fam // a (cell) paragraph written in a style of the family
+			named[s] = true
+		}
 		switch p.Via {
 		case "quote":
 			s = "Quotations"
@@ -133,6 +140,21 @@ func odtStyleDef(name string, noOutline bool) *Node {
 		st.A("style:display-name", "List Paragraph").A("style:parent-style-name", "Standard")
 	case "Standard":
 		st.A("style:class", "text")
+	}
+	return st
+}
+
+// odtFamilyDef writes a derived style of the document's style family: a common
+// style whose parent is a heading style, with a default outline level of its own
+// when it overrides (OpenDocument 1.2 part 1, 19.470 / 19.510).
+func odtFamilyDef(s *fstyle) *Node {
+	st := E("style:style").A("style:name", s.ID).A("style:display-name", "Fam "+s.ID[len("Fam_20_"):]).
+		A("style:family", "paragraph").A("style:parent-style-name", s.Parent).A("style:class", "text")
+	if s.Own > 0 {
+		st.A("style:default-outline-level", strconv.Itoa(s.Own))
+	}
+	if s.Depth == 1 {
+		st.Add(E("style:paragraph-properties").A("fo:keep-with-next", "always"))
 	}
 	return st
 }
@@ -351,11 +373,16 @@ func writeOdt(r *hx.Rng, d *ldoc) odtPkg {
 	members := []writers.Member{{Name: "content.xml", Data: content.XML(odtNS)}}
 	if d.Styles {
 		office := E("office:styles")
+		d.Fam.closeNeed(named)
 		names := sortedKeys(named)
 		if r.Bool() {
 			hx.Shuffle(r, names)
 		}
 		for _, s := range names {
+			if fs := d.Fam.get(s); fs != nil && fs.Via == "family" {
+				office.Add(odtFamilyDef(fs))
+				continue
+			}
 			office.Add(odtStyleDef(s, d.NoOutline))
 		}
 		if d.Numbering && !listInContent {
